@@ -285,6 +285,24 @@ fn deser_key(bytes: &[u8]) -> Result<FactKey, &'static str> {
     Ok(FactKey { identifier, value })
 }
 
+/// Verification shim (C29, only with `--cfg aranya_core_verif`): exposes the private, pure
+/// fact-key codec so that an external harness can compare it byte for byte with a model.
+/// Nothing here is compiled in a normal build.
+#[cfg(aranya_core_verif)]
+pub mod verif_api_c29 {
+    use alloc::boxed::Box;
+
+    use aranya_policy_vm::FactKey;
+
+    pub fn ser_key(key: &FactKey) -> Box<[u8]> {
+        super::ser_key(key)
+    }
+
+    pub fn deser_key(bytes: &[u8]) -> Result<FactKey, &'static str> {
+        super::deser_key(bytes)
+    }
+}
+
 fn ser_values(value: impl IntoIterator<Item = FactValue>) -> Result<Box<[u8]>, MachineIOError> {
     let value: Vec<_> = value.into_iter().collect();
     let bytes = postcard::to_allocvec(&value).map_err(|e| {
